@@ -291,6 +291,17 @@ def buffer_stores(fn, outer_typer=None):
             kw = {k.arg: k.value for k in c.keywords if k.arg}
             if (f in ALLOC and ('dtype' in kw or (f != 'np.full' and len(c.args) >= 2))) or f in ALLOC_LIKE:
                 bufs[name] = (c, typer.term(c))
+            elif f in ('np.array', 'np.asarray') and len(c.args) == 1 and 'dtype' not in kw and \
+                    isinstance(c.args[0], (ast.List, ast.Tuple)) and c.args[0].elts:
+                # an array built from a list of values takes the join of their types; as the type of a buffer an
+                # integer literal counts as int, not as an exact constant
+                t = frozenset()
+                for x in ast.walk(c.args[0]):
+                    if isinstance(x, ast.Constant) and isinstance(x.value, int) and not isinstance(x.value, bool):
+                        t |= {K(1)}
+                t |= typer.term(c.args[0]) - {EXACT}
+                if t:
+                    bufs[name] = (c, frozenset(t))
     nested = [n for n in ast.walk(fn) if isinstance(n, (ast.FunctionDef, ast.Lambda)) and n is not fn]
     inner = set()
     for nf in nested:
